@@ -278,17 +278,43 @@ def formatEntriesG (cx : Ctx) (es : List Entry) : List Char := es.flatMap (fun e
 `widthCjk` is exact on `inWidthTable`; the correspondence stream `c19 width` compares every code point of the
 table's domain with the real library on every run. -/
 
-/-- code-point ranges (inclusive) of width 0 inside the table's domain -/
+/-- code-point ranges (inclusive) of width 0 inside the table's domain
+(soft hyphen, Cyrillic combining marks, ideographic tone marks, kana voicing marks, halfwidth voicing marks and filler) -/
 def zeroRanges : List (Nat × Nat) :=
-  [(0xAD, 0xAD), (0x302A, 0x302D), (0x3099, 0x309A), (0xFF9E, 0xFF9F)]
+  [(0xAD, 0xAD), (0x483, 0x489), (0x302A, 0x302F), (0x3099, 0x309A), (0xFF9E, 0xFFA0)]
 
-/-- code-point ranges (inclusive) of width 2 in an East Asian context inside the table's domain -/
+/-- code-point ranges (inclusive) of width 2 in an East Asian context inside the table's domain:
+East-Asian-ambiguous characters that are neither letters nor modifier symbols, and the wide / fullwidth blocks -/
 def wideRanges : List (Nat × Nat) :=
-  [ -- Latin-1 supplement: East-Asian-ambiguous, neither letters nor modifier symbols
+  [ -- Latin-1 supplement
     (0xA1, 0xA1), (0xA4, 0xA4), (0xA7, 0xA7), (0xAE, 0xAE), (0xB0, 0xB3), (0xB6, 0xB7), (0xB9, 0xB9),
     (0xBC, 0xBF), (0xD7, 0xD7), (0xF7, 0xF7),
+    -- Greek ano teleia
+    (0x387, 0x387),
+    -- general punctuation
+    (0x2010, 0x2010), (0x2013, 0x2016), (0x2018, 0x2019), (0x201C, 0x201D), (0x2020, 0x2022), (0x2024, 0x2027),
+    (0x2030, 0x2030), (0x2032, 0x2033), (0x2035, 0x2035), (0x203B, 0x203B), (0x203E, 0x203E),
+    -- euro sign; letterlike symbols
+    (0x20AC, 0x20AC), (0x2103, 0x2103), (0x2105, 0x2105), (0x2109, 0x2109), (0x2116, 0x2116), (0x2121, 0x2122),
+    -- arrows
+    (0x2190, 0x219B), (0x21AE, 0x21AE), (0x21B8, 0x21B9), (0x21CE, 0x21CF), (0x21D2, 0x21D2), (0x21D4, 0x21D4),
+    (0x21E7, 0x21E7),
+    -- mathematical operators
+    (0x2200, 0x2200), (0x2202, 0x2204), (0x2207, 0x2209), (0x220B, 0x220C), (0x220F, 0x220F), (0x2211, 0x2211),
+    (0x2215, 0x2215), (0x221A, 0x221A), (0x221D, 0x2220), (0x2223, 0x222C), (0x222E, 0x222E), (0x2234, 0x2237),
+    (0x223C, 0x223D), (0x2241, 0x2241), (0x2248, 0x2249), (0x224C, 0x224C), (0x2252, 0x2252), (0x2260, 0x2262),
+    (0x2264, 0x2267), (0x226A, 0x226B), (0x226E, 0x2271), (0x2282, 0x2289), (0x2295, 0x2295), (0x2299, 0x2299),
+    (0x22A5, 0x22A5), (0x22BF, 0x22BF),
+    -- enclosed alphanumerics, box drawing, block elements, geometric shapes
+    (0x2460, 0x24E9), (0x24EB, 0x254B), (0x2550, 0x2573), (0x2580, 0x258F), (0x2592, 0x2595), (0x25A0, 0x25A1),
+    (0x25A3, 0x25A9), (0x25B2, 0x25B3), (0x25B6, 0x25B7), (0x25BC, 0x25BD), (0x25C0, 0x25C1), (0x25C6, 0x25C8),
+    (0x25CB, 0x25CB), (0x25CE, 0x25D1), (0x25E2, 0x25E5), (0x25EF, 0x25EF), (0x25FD, 0x25FE),
+    -- miscellaneous symbols
+    (0x2605, 0x2606), (0x2609, 0x2609), (0x260E, 0x260F), (0x2614, 0x2615), (0x261C, 0x261C), (0x261E, 0x261E),
+    (0x2640, 0x2640), (0x2642, 0x2642), (0x2648, 0x2653), (0x2660, 0x2661), (0x2663, 0x2665), (0x2667, 0x266A),
+    (0x266C, 0x266D), (0x266F, 0x266F),
     -- CJK symbols and punctuation, Hiragana, Katakana
-    (0x3000, 0x3029), (0x302E, 0x303E), (0x3041, 0x3096), (0x309B, 0x30FF),
+    (0x3000, 0x3029), (0x3030, 0x303E), (0x3041, 0x3096), (0x309B, 0x30FF),
     -- CJK unified ideographs
     (0x4E00, 0x9FFF),
     -- Hangul syllables
@@ -298,11 +324,11 @@ def wideRanges : List (Nat × Nat) :=
     -- emoticons
     (0x1F600, 0x1F64F) ]
 
-/-- the domain on which `widthCjk` is claimed (and checked) to equal `width_cjk` -/
+/-- the domain on which `widthCjk` is claimed (and checked on every run) to equal `width_cjk` -/
 def tableRanges : List (Nat × Nat) :=
-  [(0x20, 0x7E), (0xA0, 0xFF), (0x391, 0x3A1), (0x3A3, 0x3A9), (0x3B1, 0x3C9), (0x410, 0x44F),
-   (0x3000, 0x303F), (0x3041, 0x3096), (0x3099, 0x30FF), (0x4E00, 0x9FFF), (0xAC00, 0xD7A3),
-   (0xFF01, 0xFF9F), (0xFFE0, 0xFFE6), (0x1F600, 0x1F64F)]
+  [(0x20, 0x7E), (0xA0, 0x17F), (0x370, 0x3FF), (0x400, 0x4FF), (0x2010, 0x2027), (0x2030, 0x205E),
+   (0x20A0, 0x20C0), (0x2100, 0x214F), (0x2190, 0x21FF), (0x2200, 0x22FF), (0x2460, 0x24FF), (0x2500, 0x25FF),
+   (0x2600, 0x266F), (0x3000, 0x30FF), (0x4E00, 0x9FFF), (0xAC00, 0xD7A3), (0xFF00, 0xFFEF), (0x1F600, 0x1F64F)]
 
 def inRanges (rs : List (Nat × Nat)) (n : Nat) : Bool := rs.any fun r => decide (r.1 ≤ n) && decide (n ≤ r.2)
 
